@@ -61,7 +61,7 @@ def run_selftests(pid, mod, ctx):
                 results.append(res)
                 continue
             try:
-                fd, stamp, _ = facts.ensure_facts(repo=repo2, tag="-selftest-%d" % os.getpid())
+                fd, stamp, _ = facts.ensure_facts(repo=repo2, tag="-selftest")
             except facts.BuildFailed as e:
                 res["result"] = "skipped (patched copy does not compile: %s)" % str(e)[-200:]
                 results.append(res)
@@ -79,7 +79,6 @@ def run_selftests(pid, mod, ctx):
             else:
                 res["result"] = "silent (as required for a behaviour-preserving refactoring)" if not fired else "FALSE-ALARM"
             results.append(res)
-            shutil.rmtree(fd, ignore_errors=True)
         finally:
             shutil.rmtree(scratch, ignore_errors=True)
     ctx.selftests = results
